@@ -147,6 +147,7 @@ func (u *upstreamRec) RoundTrip(r *http.Request) (*http.Response, error) {
 type logHook struct {
 	mu      sync.Mutex
 	entries []string
+	msgs    []string // level + message only (for matching against the regenerated site table)
 }
 
 func (h *logHook) Levels() []log.Level { return log.AllLevels }
@@ -157,35 +158,37 @@ func (h *logHook) Fire(e *log.Entry) error {
 	}
 	h.mu.Lock()
 	h.entries = append(h.entries, s)
+	h.msgs = append(h.msgs, e.Level.String()+" "+e.Message)
 	h.mu.Unlock()
 	return nil
 }
 
 type stack struct {
-	opts    stackOpts
-	cfg     *config.Config
-	oidc    *hOpenID
-	idp     *fakeIDP
-	net     *memNet
-	srv     *http.Server
-	ctl     *controller
-	mr      *miniredis.Miniredis
-	rdb     *redis.Client
-	gredis  *gateRedis
-	gmem    *gateMemStore
-	main    *handler.Standalone
-	mainRt  chi.Router
-	proxy   *handler.SSOProxy
-	proxyRt chi.Router
-	up      *upstreamRec
-	crypter verifx.Crypter
-	key     []byte
-	start   time.Time
-	logs    *logHook
-	deks    map[string]int // base64(dek) -> ordinal
-	counter int            // the model's w_next_tok
-	logins  []*loginResult
-	nextTid int
+	opts        stackOpts
+	cfg         *config.Config
+	oidc        *hOpenID
+	idp         *fakeIDP
+	net         *memNet
+	srv         *http.Server
+	ctl         *controller
+	mr          *miniredis.Miniredis
+	rdb         *redis.Client
+	gredis      *gateRedis
+	gmem        *gateMemStore
+	main        *handler.Standalone
+	mainRt      chi.Router
+	proxy       *handler.SSOProxy
+	proxyRt     chi.Router
+	up          *upstreamRec
+	crypter     verifx.Crypter
+	key         []byte
+	start       time.Time
+	logs        *logHook
+	deks        map[string]int // base64(dek) -> ordinal
+	counter     int            // the model's w_next_tok
+	logins      []*loginResult
+	seenCookies []string // every Set-Cookie value produced by wonderwall in this stack
+	nextTid     int
 }
 
 type loginResult struct {
@@ -428,7 +431,86 @@ func navHeaders(r *http.Request) {
 func (s *stack) serveMain(req *http.Request) *httptest.ResponseRecorder {
 	rec := httptest.NewRecorder()
 	s.mainRt.ServeHTTP(rec, req)
+	s.noteCookies(rec.Header().Values("Set-Cookie"))
 	return rec
+}
+
+func (s *stack) noteCookies(hdrs []string) {
+	for _, h := range hdrs {
+		if i := strings.Index(h, "="); i > 0 {
+			v := h[i+1:]
+			if j := strings.Index(v, ";"); j >= 0 {
+				v = v[:j]
+			}
+			if len(v) >= 24 {
+				s.ctl.mu.Lock()
+				s.seenCookies = append(s.seenCookies, v)
+				s.ctl.mu.Unlock()
+			}
+		}
+	}
+}
+
+// logScan searches every captured log entry (all levels) for the secrets of this stack.
+func (s *stack) logScan() (entries int, leaks []string, messages []string) {
+	secrets := map[string]string{"deployment-key": string(s.key), "client-secret": s.cfg.OpenID.ClientSecret}
+	enc := func(name string, raw []byte) {
+		secrets[name+"/raw"] = string(raw)
+		secrets[name+"/b64"] = base64.StdEncoding.EncodeToString(raw)
+		secrets[name+"/b64url"] = base64.RawURLEncoding.EncodeToString(raw)
+	}
+	enc("deployment-key", s.key)
+	for i, lr := range s.logins {
+		enc(fmt.Sprintf("data-key-%d", i), lr.dek)
+	}
+	s.idp.mu.Lock()
+	for i, m := range s.idp.minted {
+		secrets[fmt.Sprintf("token-%d", i)] = m
+	}
+	for i, e := range s.idp.log {
+		if v := e.Form["code_verifier"]; v != "" {
+			secrets[fmt.Sprintf("code-verifier-%d", i)] = v
+		}
+		if v := e.Form["client_assertion"]; v != "" {
+			secrets[fmt.Sprintf("client-assertion-%d", i)] = v
+		}
+	}
+	s.idp.mu.Unlock()
+	s.ctl.mu.Lock()
+	for i, c := range s.seenCookies {
+		secrets[fmt.Sprintf("cookie-value-%d", i)] = c
+	}
+	s.ctl.mu.Unlock()
+	_, ck := sharedKeys()
+	if b, err := json.Marshal(ck); err == nil {
+		var m map[string]any
+		json.Unmarshal(b, &m)
+		if d, ok := m["d"].(string); ok {
+			secrets["client-jwk-d"] = d
+		}
+	}
+	s.logs.mu.Lock()
+	defer s.logs.mu.Unlock()
+	seen := map[string]bool{}
+	for _, e := range s.logs.entries {
+		entries++
+		for name, sec := range secrets {
+			if len(sec) >= 8 && strings.Contains(e, sec) {
+				kind := name
+				if i := strings.LastIndex(name, "-"); i > 0 && name[i+1:] != "" && name[i+1] >= '0' && name[i+1] <= '9' {
+					kind = name[:i]
+				}
+				leaks = append(leaks, kind+" in: "+e)
+			}
+		}
+		if !seen[e] && len(messages) < 400 {
+			seen[e] = true
+		}
+	}
+	for _, m := range s.logs.msgs {
+		messages = append(messages, m)
+	}
+	return
 }
 
 func cookieValue(rec *httptest.ResponseRecorder, name string) (string, bool) {
@@ -596,6 +678,8 @@ func (s *stack) spawn(tid int, spec reqSpec) *hthread {
 	s.ctl.mu.Unlock()
 	go func() {
 		rec := httptest.NewRecorder()
+		var cookiesSeen []string
+		defer func() { s.noteCookies(cookiesSeen) }()
 		defer func() {
 			if v := recover(); v != nil {
 				th.panicv = v
@@ -604,6 +688,7 @@ func (s *stack) spawn(tid int, spec reqSpec) *hthread {
 			th.status = rec.Code
 			th.body = rec.Body.Bytes()
 			th.setCookies = rec.Header().Values("Set-Cookie")
+			cookiesSeen = th.setCookies
 			th.location = rec.Header().Get("Location")
 			s.up.mu.Lock()
 			if ur := s.up.byTid[tid]; ur != nil {
